@@ -109,6 +109,9 @@ pub fn generate(rng: &mut Rng, fam: Family) -> Value {
                 "desc": rng.chance(1, 2),
                 "nulls_first": rng.chance(1, 2),
                 "n": rng.range(1, 4),
+                // an outer ORDER BY that repeats the window's own (partition, order) keys: the optimizer may
+                // rely on the ordering the top-n operator declares instead of sorting again
+                "ordered": rng.chance(1, 2),
             }),
             6 => json!({"t": "limit_any", "c": rng.below(700) as i64 - 300, "n": rng.range(0, 12), "m": if rng.chance(1, 3) { rng.range(0, 4) } else { 0 }}),
             7 => json!({"t": "union_sorted", "desc": rng.chance(1, 2), "limit": if rng.chance(1, 2) { json!(rng.range(0, 12)) } else { Value::Null }}),
@@ -467,10 +470,10 @@ pub fn sql(q: &Value) -> Option<String> {
                 return None;
             }
             let tie = if f == "row_number" { ", id" } else { "" };
+            let (d, nl) = (dir(q.get("desc")?.as_bool()?), nulls(q.get("nulls_first")?.as_bool()?));
+            let outer = if q.get("ordered").and_then(|x| x.as_bool()).unwrap_or(false) { format!(" ORDER BY k ASC NULLS LAST, v {d} {nl}, id") } else { String::new() };
             format!(
-                "SELECT id, k, v, rn FROM (SELECT id, k, v, {f}() OVER (PARTITION BY k ORDER BY v {} {}{tie}) AS rn FROM {a}) WHERE rn <= {}",
-                dir(q.get("desc")?.as_bool()?),
-                nulls(q.get("nulls_first")?.as_bool()?),
+                "SELECT id, k, v, rn FROM (SELECT id, k, v, {f}() OVER (PARTITION BY k ORDER BY v {d} {nl}{tie}) AS rn FROM {a}) WHERE rn <= {}{outer}",
                 q.get("n")?.as_u64()?
             )
         }
@@ -535,6 +538,7 @@ pub fn has_reference(q: &Value) -> bool {
 pub fn compare_mode(q: &Value) -> Compare {
     match q.get("t").and_then(|t| t.as_str()).unwrap_or("") {
         "sort" | "sort1" | "sort2" | "topk_agg" | "limit" | "union_sorted" => Compare::Sequence,
+        "window_topn" if q.get("ordered").and_then(|x| x.as_bool()).unwrap_or(false) => Compare::Sequence,
         "limit_any" | "distinct_limit" => Compare::LimitAny,
         "topk_ties" => Compare::TopTies { from: 1 },
         _ => Compare::Multiset,
@@ -1071,7 +1075,13 @@ pub fn reference(q: &Value, a: &[Row], b: &[Row]) -> Option<Vec<Cells>> {
             for r in a {
                 parts.entry(kmap(kt, r.k)).or_default().push(r);
             }
+            let ordered = q.get("ordered").and_then(|x| x.as_bool()).unwrap_or(false);
             let mut out = vec![];
+            // (BTreeMap order of Option<KOrd> is NULL first; the outer ORDER BY asks for NULLS LAST)
+            let mut parts: Vec<(Option<KOrd>, Vec<&Row>)> = parts.into_iter().collect();
+            if ordered {
+                parts.sort_by(|x, y| cmp_opt(&x.0, &y.0, false, false));
+            }
             for (_, mut rows) in parts {
                 rows.sort_by(|x, y| cmp_opt(&x.v, &y.v, desc, nf).then(x.id.cmp(&y.id)));
                 let (mut rank, mut dense) = (0i64, 0i64);
